@@ -2,7 +2,7 @@
    .Bd/.Ed nested to any depth: every scope on the block stack is a Bd. *)
 From Coq Require Import List NArith ZArith Bool Lia Arith String.
 Import ListNotations.
-Require Import Xhtml Exp Proc1 Proc2 Proc3 Ctl Loop Eqd Tok Inv EqF.
+Require Import Xhtml Exp Proc1 Proc2 Proc3 Ctl Loop Eqd Tok Inv EqF InvI.
 Open Scope N_scope.
 Arguments run : simpl never.
 Arguments rev : simpl never.
@@ -25,7 +25,7 @@ Proof. intros H [A1 A3 A4 A5 A6 A7 A8 A9 A10 A11 A12 A13].
 Definition is_bd (sc : scope) : Prop := sc_macro sc = R "Bd".
 Definition P (p : bool) (s : st) : Prop := Side s /\ Forall is_bd (sblock s) /\ process s = p /\ (p = true -> Inv s).
 Definition in_frag (b : block) : Prop :=
-  match b with BText _ _ => True | BMacro n a _ => n = R "Bm" \/ n = R "Em" \/ n = R "Sm" \/ (n = R "P" /\ a = []) \/ n = R "Bd" \/ n = R "Ed" end.
+  match b with BText _ _ => True | BMacro n a _ => n = R "Bm" \/ n = R "Em" \/ n = R "Sm" \/ n = R "P" \/ n = R "Bd" \/ n = R "Ed" end.
 
 Lemma top_app {A} (l : list A) x : top (l ++ [x]) = Some x.
 Proof. unfold top. rewrite map_app. cbn [map]. induction (map Some l) as [|a r IH]; [reflexivity|]. cbn [app]. destruct (r ++ [Some x]) eqn:E; [destruct r; discriminate|]. exact IH. Qed.
@@ -62,9 +62,6 @@ Lemma pop_length {A} (l : list A) : List.length (pop l) = (List.length l - 1)%na
 Proof. unfold pop. induction l as [|a [|b r] IH]; [reflexivity|reflexivity|]. change (removelast (a :: b :: r)) with (a :: removelast (b :: r)).
   cbn [List.length] in *. rewrite IH. lia. Qed.
 Lemma Inv_quiet q s : Inv s -> Inv (s <| quiet := q |>). Proof. intros [A B C]. split; assumption. Qed.
-Lemma set_quiet_eqf q s : s <| quiet := q |> ~= s. Proof. destruct s; reflexivity. Qed.
-Lemma set_macro_eqf q s : s <| macro := q |> ~= s. Proof. destruct s; reflexivity. Qed.
-Lemma set_args_eqf q s : s <| args := q |> ~= s. Proof. destruct s; reflexivity. Qed.
 
 Lemma close_inline_loop_P cur : forall f s, P true s -> (List.length (sinline s) <= f)%nat ->
   P true (close_inline_loop f cur s) /\ (List.length (sinline s) < f -> sinline (close_inline_loop f cur s) = [])%nat.
@@ -134,20 +131,6 @@ Proof. intros (HS & Hsb & Hpr & HI) Hsi. specialize (HI eq_refl). cbv zeta. unfo
   - rewrite (fmt_eqf _ _ F2). exact (sd_fmt _ HS).
 Qed.
 
-Lemma close_inline_loop_eqf cur : forall n s, fmt s = FX -> markup_ok (mtags s) -> close_inline_loop n cur s ~= s.
-Proof. induction n as [|n IH]; intros s Hf Hm; [apply eqf_refl|]. cbn [close_inline_loop]. destruct (top (sinline s)) as [sc|]; [|apply eqf_refl].
-  set (s2 := warn_unclosed sc (s <| macro := cur |>) <| macro := R "Em" |> <| args := tag_args (sc_tag sc) |>).
-  assert (F2 : s2 <| quiet := true |> ~= s).
-  { eapply eqf_trans; [apply set_quiet_eqf|]. unfold s2. eapply eqf_trans; [apply set_args_eqf|]. eapply eqf_trans; [apply set_macro_eqf|].
-    eapply eqf_trans; [apply eqd_eqf, err_eqd|apply set_macro_eqf]. }
-  destruct (macro_em_eqf (s2 <| quiet := true |>) ltac:(rewrite (fmt_eqf _ _ F2); exact Hf) ltac:(rewrite (mtags_eqf _ _ F2); exact Hm)) as [Fem _].
-  set (s3' := macro_em (s2 <| quiet := true |>) <| quiet := quiet s2 |> <| args := [] |>).
-  assert (F3 : s3' ~= s) by (unfold s3'; eapply eqf_trans; [apply set_args_eqf|]; eapply eqf_trans; [apply set_quiet_eqf|]; eapply eqf_trans; [exact Fem|exact F2]).
-  eapply eqf_trans; [apply IH; [rewrite (fmt_eqf _ _ F3); exact Hf|rewrite (mtags_eqf _ _ F3); exact Hm]|exact F3]. Qed.
-Lemma close_unclosed_inline_eqf s : fmt s = FX -> markup_ok (mtags s) -> close_unclosed_inline s ~= s.
-Proof. intros Hf Hm. unfold close_unclosed_inline. destruct (sinline s) as [|x l]; [apply eqf_refl|].
-  eapply eqf_trans; [apply set_args_eqf|]. eapply eqf_trans; [apply set_macro_eqf|].
-  eapply eqf_trans; [apply close_inline_loop_eqf; [exact Hf|exact Hm]|apply set_args_eqf]. Qed.
 
 (* ---------- display blocks ---------- *)
 Lemma P_eqd p a b : a ~~ b -> P p b -> P p a.
@@ -364,6 +347,59 @@ Proof. intros HP. pose proof HP as (HS & Hsb & Hpr & HI). unfold macro_ed. destr
   - rewrite Inv.fmt_w. exact (sd_fmt _ HS7).
 Qed.
 
+(* ---------- P with or without a title ---------- *)
+Lemma macro_p_P p s : P p s -> has_cur s = true -> P p (macro_p pim s).
+Proof. intros HP Hc. pose proof HP as (HS & Hsb & Hpr & HI). unfold macro_p. rewrite Hpr. destruct p; cbn [negb]; [|exact HP].
+  pose proof (parse_opts_eqd specOptNone (args s) s) as E1. destruct (parse_opts specOptNone (args s) s) as [o s1]. cbn [snd] in E1.
+  pose proof (P_eqd _ _ _ E1 HP) as (HS1 & Hsb1 & Hpr1 & HI1). specialize (HI1 eq_refl).
+  pose proof (Inv_p_break s1 HI1 (sd_mk _ HS1) (sd_vs _ HS1) (scope_verse_bd _ Hsb1)) as H2.
+  pose proof (p_break_eqf s1 (sd_fmt _ HS1) (sd_mk _ HS1)) as F2.
+  unfold p_break in H2, F2. cbv zeta in H2, F2.
+  match type of F2 with ?x ~= _ => set (s2 := x) in * end. clearbody s2. destruct H2 as [HI2 Hv2].
+  pose proof (Side_eqf _ _ F2 HS1) as HS2.
+  assert (Hp2 : par s2 = false) by (exact (f_equal (fun v => fst (fst (fst (snd v)))) Hv2)).
+  assert (Hvs2 : verse s2 = false) by (exact (f_equal (fun v => snd (fst (fst (snd v)))) Hv2)).
+  assert (Hsb2 : sblock s2 = sblock s1) by (apply (eqf_get sblock _ _ (fun _ => eq_refl) F2)).
+  destruct (po_args o) as [|a0 al].
+  - assert (F : s2 <| ws := false |> <| verse := false |> ~= s2) by (eapply eqf_trans; [apply set_verse_eqf; exact Hvs2|apply set_ws_eqf]).
+    split; [apply (Side_eqf _ _ F HS2)|]. split; [rewrite (eqf_get sblock _ _ (fun _ => eq_refl) F), Hsb2; exact Hsb1|].
+    split; [rewrite (eqf_get process _ _ (fun _ => eq_refl) F), (eqf_get process _ _ (fun _ => eq_refl) F2); exact Hpr1|]. intros _.
+    apply (Inv_regs s2); try reflexivity; [|exact HI2]. unfold view. cbn. rewrite Hvs2. reflexivity.
+  - set (s2p := s2 <| par := true |>).
+    assert (F2p : s2p ~= s2) by apply set_par_eqf.
+    pose proof (Side_eqf _ _ F2p HS2) as HS2p.
+    assert (Hc2p : has_cur s2p = true).
+    { rewrite (eqf_get has_cur _ _ (fun _ => eq_refl) F2p), (eqf_get has_cur _ _ (fun _ => eq_refl) F2), (eqd_get has_cur _ _ (fun _ => eq_refl) E1). exact Hc. }
+    destruct (pim_spec (a0 :: al) s2p (sd_fmt _ HS2p) (sd_asis _ HS2p) (sd_inl _ HS2p) (sd_mk _ HS2p) (sd_bf _ HS2p) Hc2p) as (Ht & F3 & Ho3 & Hv3 & Hb3).
+    destruct (pim (a0 :: al) s2p) as [title s3]. cbn [fst snd] in *.
+    pose proof (Side_eqf _ _ F3 HS2p) as HS3.
+    unfold paragraph_title. rewrite (sd_fmt _ HS3). unfold X.paragraph_title.
+    set (pt := R "<p class=""paragraph""><strong class=""paragraph"">" ++ title ++ R "</strong>" ++ NLs).
+    assert (Hrpt : forall stk, run pt (Txt, stk) = (Txt, R "p" :: stk)) by (intro stk; apply (run_ptitle title Ht)). clearbody pt.
+    assert (Hp3 : par s3 = true) by (exact (f_equal (fun v => fst (fst (fst (snd v)))) Hv3)).
+    unfold reopen_spanning.
+    destruct (reopen_fold (mtags (w pt s3)) (sinline (w pt s3)) ltac:(rewrite mtags_w; exact (sd_mk _ HS3)) (w pt s3) ltac:(rewrite Inv.fmt_w; exact (sd_fmt _ HS3)) eq_refl) as [c [Ec Hcx]].
+    rewrite Ec.
+    set (sf := wl c (w pt s3)).
+    assert (Ff : sf ~= s2) by (unfold sf; eapply eqf_trans; [apply wl_eqf|]; eapply eqf_trans; [apply w_eqf|]; eapply eqf_trans; [exact F3|exact F2p]).
+    assert (Hvf : view sf = view s2p) by (unfold sf; rewrite view_wl, view_w; exact Hv3).
+    assert (Hvsf : verse sf = false) by (rewrite (eqf_get verse _ _ (fun _ => eq_refl) Ff); exact Hvs2).
+    assert (F : sf <| ws := false |> <| verse := false |> ~= s2) by (eapply eqf_trans; [apply set_verse_eqf; exact Hvsf|]; eapply eqf_trans; [apply set_ws_eqf|exact Ff]).
+    split; [apply (Side_eqf _ _ F HS2)|]. split; [rewrite (eqf_get sblock _ _ (fun _ => eq_refl) F), Hsb2; exact Hsb1|].
+    split; [rewrite (eqf_get process _ _ (fun _ => eq_refl) F), (eqf_get process _ _ (fun _ => eq_refl) F2); exact Hpr1|]. intros _.
+    apply (Inv_regs sf); try reflexivity; [unfold view; cbn; rewrite Hvsf; reflexivity|].
+    apply (Inv_step s2 _ (pt ++ flat c) HI2).
+    + unfold sf. rewrite out_wl by (rewrite par_w, Hp3; discriminate). rewrite out_w by (rewrite Hp3; discriminate). rewrite Ho3, <- app_assoc. reflexivity.
+    + unfold elems. rewrite Hvf, Hv2. unfold s2p, view, elems_v. cbn [sblock dtags ttitscope par verse sinline mtags]. cbn.
+      rewrite Hvs2. cbn [app]. rewrite app_nil_r, run_app, Hrpt, Hcx.
+      assert (Esi : sinline (w pt s3) = sinline s2) by (change (sinline (w pt s3)) with (let '(_, _, _, (_, _, si, _)) := view (w pt s3) in si); rewrite view_w, Hv3; reflexivity).
+      assert (Emt : mtags (w pt s3) = mtags s2) by (rewrite mtags_w; apply (mtags_eqf _ _ (eqf_trans _ _ _ F3 F2p))).
+      rewrite Esi, Emt, rev_app_distr. cbn [rev app]. rewrite rev_cons1, <- app_assoc.
+      rewrite (eqf_get dtags _ _ (fun _ => eq_refl) F2), (eqf_get ttitscope _ _ (fun _ => eq_refl) F2), Hsb2. reflexivity.
+    + unfold sf. rewrite par_wl, par_w, Hp3. discriminate.
+    + rewrite (fmt_eqf _ _ Ff). exact (sd_fmt _ HS2).
+Qed.
+
 Lemma Side_set_regs b s : Side s -> Side (set_regs b s).
 Proof. intros [A1 A3 A4 A5 A6 A7 A8 A9 A10 A11 A12 A13]. destruct b; split; assumption. Qed.
 Lemma P_set_regs p b s : P p s -> P p (set_regs b s) /\ has_cur (set_regs b s) = true.
@@ -389,7 +425,7 @@ Proof. intros Hb HP. unfold step. cbv zeta.
   destruct b as [n a l|t l].
   - rewrite A3, A7. cbn [assoc].
     assert (Ebf : bf_check n s0 = s0) by (unfold bf_check; rewrite A8; reflexivity).
-    destruct Hb as [-> | [-> | [-> | [[-> ->] | [-> | ->]]]]].
+    destruct Hb as [-> | [-> | [-> | [-> | [-> | ->]]]]].
     + change (control_builtin pb (R "Bm")) with (@None (cst -> cst)). change (builtin (R "Bm")) with (Some macro_bm). cbn [snd]. rewrite Ebf.
       pose proof (macro_bm_eqf s0 A11 A1 Hc0) as F1.
       assert (F : after_handler (R "Bm") (macro_bm s0) ~= s0) by (eapply eqf_trans; [apply after_handler_eqf|exact F1]).
@@ -409,12 +445,7 @@ Proof. intros Hb HP. unfold step. cbv zeta.
       intro Hp. pose proof (Inv_macro_sm s0 (HI0 Hp) A1 (eq_trans Hpr0 Hp) A3 Hv) as H.
       apply (Inv_regs (macro_sm s0)); [..|exact H]; unfold after_handler; destruct (elided (macro_sm s0)); reflexivity.
     + change (control_builtin pb (R "P")) with (@None (cst -> cst)). change (builtin (R "P")) with (Some (macro_p pim)). cbn [snd]. rewrite Ebf.
-      assert (Ha0 : args s0 = []) by reflexivity.
-      pose proof (macro_p_plain_eqf pim s0 A11 A1 Ha0 A10) as F1.
-      assert (F : after_handler (R "P") (macro_p pim s0) ~= s0) by (eapply eqf_trans; [apply after_handler_eqf|exact F1]).
-      split; [apply (Side_eqf _ _ F HS)|]. split; [rewrite (eqf_get sblock _ _ (fun _ => eq_refl) F); exact Hsb|]. split; [rewrite (eqf_get process _ _ (fun _ => eq_refl) F); exact Hpr|].
-      intro Hp. pose proof (Inv_macro_p_plain pim s0 (HI0 Hp) A1 (eq_trans Hpr0 Hp) Ha0 A10 (scope_verse_bd _ Hsb0)) as H.
-      apply (Inv_regs (macro_p pim s0)); [..|exact H]; unfold after_handler; destruct (elided (macro_p pim s0)); reflexivity.
+      apply P_after_handler, macro_p_P; [exact HP0|exact Hc0].
     + change (control_builtin pb (R "Bd")) with (@None (cst -> cst)). change (builtin (R "Bd")) with (Some macro_bd). cbn [snd]. rewrite Ebf.
       apply P_after_handler, macro_bd_P; [exact HP0|exact Hc0].
     + change (control_builtin pb (R "Ed")) with (@None (cst -> cst)). change (builtin (R "Ed")) with (Some macro_ed). cbn [snd]. rewrite Ebf.
@@ -537,7 +568,7 @@ c <d>
 .Bd -id x
 nested
 .Em !
-.P
+.P A <title> Bm with Em markup
 new paragraph
 .Sm strong <t> .
 .Ed
@@ -554,7 +585,8 @@ Example blocks_example :
 <p><em>c &lt;d&gt;</em></p>
 <div id=""x"">
 <p>nested</p>
-<p>new paragraph
+<p class=""paragraph""><strong class=""paragraph"">A &lt;title&gt; <em>with</em>markup</strong>
+new paragraph
 <em>strong &lt;t&gt;</em>.</p>
 </div>
 <p>e
@@ -563,5 +595,5 @@ Example blocks_example :
 ").
 Proof. split; [|vm_compute; split; reflexivity].
   vm_compute.
-  repeat (apply Forall_cons; [first [exact I | left; reflexivity | right; left; reflexivity | right; right; left; reflexivity | right; right; right; left; split; reflexivity
+  repeat (apply Forall_cons; [first [exact I | left; reflexivity | right; left; reflexivity | right; right; left; reflexivity | right; right; right; left; reflexivity
     | right; right; right; right; left; reflexivity | right; right; right; right; right; reflexivity]|]). apply Forall_nil. Qed.
